@@ -1,9 +1,67 @@
 package main
 
 import (
+	"context"
 	"os"
+	"runtime/metrics"
 	"sync"
+	"time"
 )
+
+// guardCtx is a context whose Done() counts the interpreter's polls. It is
+// closed from the k-th poll on (k > 0: cancellation at exactly that poll, no
+// hook needed) and also when a budget is exhausted (maxPolls, wall clock, heap),
+// in which case budget is set and the run is outside the claim.
+type guardCtx struct {
+	context.Context
+	k, n, maxPolls int
+	deadline       time.Time
+	budget, fired  bool
+	closed, open   chan struct{}
+}
+
+const heapLimit = 3 << 30
+
+func newGuardCtx(k, maxPolls int, d time.Duration) *guardCtx {
+	c := &guardCtx{Context: context.Background(), k: k, maxPolls: maxPolls, deadline: time.Now().Add(d),
+		closed: make(chan struct{}), open: make(chan struct{})}
+	close(c.closed)
+	return c
+}
+
+var heapSample = []metrics.Sample{{Name: "/memory/classes/heap/objects:bytes"}}
+var heapMu sync.Mutex
+
+func heapBytes() uint64 {
+	heapMu.Lock()
+	defer heapMu.Unlock()
+	metrics.Read(heapSample)
+	return heapSample[0].Value.Uint64()
+}
+
+func (c *guardCtx) Done() <-chan struct{} {
+	c.n++
+	if c.fired {
+		return c.closed
+	}
+	if c.k > 0 && c.n >= c.k {
+		c.fired = true
+		return c.closed
+	}
+	if c.maxPolls > 0 && c.n >= c.maxPolls ||
+		c.n%128 == 0 && (time.Now().After(c.deadline) || heapBytes() > heapLimit) {
+		c.fired, c.budget = true, true
+		return c.closed
+	}
+	return c.open
+}
+
+func (c *guardCtx) Err() error {
+	if c.fired {
+		return context.Canceled
+	}
+	return nil
+}
 
 func readFile(path string) (string, error) {
 	b, err := os.ReadFile(path)
